@@ -165,6 +165,11 @@ impl CoeServer {
     pub fn handle(&mut self, req: &[u8], out_cap: usize) -> Vec<Vec<u8>> {
         let mut out = Vec::new();
         if req.len() < 8 {
+            // scripted raw replies do not look at the request (IN mailboxes of 6..7 bytes, C16)
+            if let Some(raw) = self.raw_replies.pop_front() {
+                self.log.push(CoeEvent::Raw);
+                return raw;
+            }
             self.log.push(CoeEvent::Ignored("short"));
             return out;
         }
